@@ -179,6 +179,14 @@ YTick(y0, d) == LET y == y0 IN [y EXCEPT !.now = @ + d]
 YTeardown(y0) == [y0 EXCEPT !.down = TRUE]
 YPanic(y0) == LET y == y0 IN Bad(Bad(y, "bad01", TRUE, "panic"), "bad02", TRUE, "panic")
 
+(* a spawned task never returned control to the runtime (the harness's watchdog ended the run): nothing can be served, *)
+(* answered, cancelled, expired or shut down any more - every end-to-end reading is violated                           *)
+YHang(y0) ==
+  LET why == "a task never returned control to the runtime"
+      fs == <<"bad01", "bad02", "bad03", "bad04", "bad05", "bad06", "bad09", "bad10", "bad12", "bad13", "bad14", "bad18">>
+      F[i \in 0..Len(fs)] == IF i = 0 THEN y0 ELSE Bad(F[i - 1], fs[i], TRUE, why)
+  IN F[Len(fs)]
+
 (* the runtime has nothing left to run *)
 YIdle(y0, busy) ==
   LET y == y0
